@@ -108,6 +108,12 @@ func (c *collector) emit(o *Outcome) {
 	c.res.Runs++
 	c.res.Stats.Add(&o.Stats)
 	for k, v := range o.FaultFired {
+		// "probe:" keys are reach probes (which workload shapes were drawn, which
+		// rare branches were hit), not injected faults
+		if strings.HasPrefix(k, "probe:") {
+			c.res.Probes[strings.TrimPrefix(k, "probe:")] += v
+			continue
+		}
 		c.res.FaultFired[k] += v
 	}
 	if o.Inconclusive != "" {
